@@ -38,7 +38,7 @@ import (
 // Events: start(caller j) — caller j issues its next operation; reply(conn i) — the parked handler
 // of conn i answers; faults (cost 1): the callers' deadline passes (virtual time +1s), the server
 // closes conn i instead of answering, the server answers conn i but the connection is cut in the
-// middle of the reply frame. After each event the bubble is settled.
+// middle of the reply frame, a caller cancels the context of its in-flight batch. After each event the bubble is settled.
 
 type c28Pump struct {
 	mu       sync.Mutex
@@ -226,6 +226,7 @@ func (s *c28Server) parkedList() []*c28Parked {
 type c28Op struct {
 	batch   []string // request ids (one id = SendProto, several = SendBatchProto)
 	timeout time.Duration
+	cancel  bool // the caller's context can be cancelled while the operation is in flight (event)
 }
 
 type c28Result struct {
@@ -257,10 +258,11 @@ func c28Run(t *testing.T, sc c28Scenario, c *vsched.Chooser) (out vsched.Outcome
 		}
 		var mu sync.Mutex
 		type caller struct {
-			cmd  chan int
-			next int
-			busy bool
-			res  []*c28Result
+			cmd      chan int
+			next     int
+			busy     bool
+			res      []*c28Result
+			cancelFn func() // non-nil while a cancellable operation is in flight and not yet cancelled
 		}
 		callers := make([]*caller, len(sc.ops))
 		var cwg sync.WaitGroup
@@ -278,6 +280,13 @@ func c28Run(t *testing.T, sc c28Scenario, c *vsched.Chooser) (out vsched.Outcome
 					ctx, cancel := context.Background(), func() {}
 					if r.op.timeout > 0 {
 						ctx, cancel = context.WithTimeout(ctx, r.op.timeout)
+					}
+					if r.op.cancel {
+						var cf context.CancelFunc
+						ctx, cf = context.WithCancel(ctx)
+						mu.Lock()
+						cr.cancelFn = cf
+						mu.Unlock()
 					}
 					var got []string
 					var err error
@@ -304,6 +313,10 @@ func c28Run(t *testing.T, sc c28Scenario, c *vsched.Chooser) (out vsched.Outcome
 					mu.Lock()
 					r.got, r.err, r.done = got, err, true
 					cr.busy = false
+					if cr.cancelFn != nil {
+						cr.cancelFn()
+						cr.cancelFn = nil
+					}
 					mu.Unlock()
 				}
 			}()
@@ -366,6 +379,18 @@ func c28Run(t *testing.T, sc c28Scenario, c *vsched.Chooser) (out vsched.Outcome
 				}
 				if cr.busy && cr.res[cr.next-1].op.timeout > 0 {
 					inflightWithDeadline = true
+				}
+				if cr.busy && cr.cancelFn != nil {
+					cr, j := cr, j
+					faults = append(faults, ev{name: fmt.Sprintf("fault caller c%d cancels its context", j), cost: 1, fire: func() {
+						mu.Lock()
+						cf := cr.cancelFn
+						cr.cancelFn = nil
+						mu.Unlock()
+						if cf != nil {
+							cf()
+						}
+					}})
 				}
 			}
 			mu.Unlock()
@@ -477,19 +502,19 @@ func TestVerifC28(t *testing.T) {
 		{name: "3callers/2conns/ask+ask+batch", conns: 2, bound: b, ops: [][]c28Op{
 			{one("a1", time.Second), one("a2", 0)},
 			{one("b1", 0)},
-			{{batch: []string{"c1", "c2"}, timeout: time.Second}},
+			{{batch: []string{"c1", "c2"}, timeout: time.Second, cancel: true}},
 		}},
 		// connection reuse after a timed out exchange: everything goes through a single pooled connection
 		{name: "2callers/1conn/reuse-after-timeout", conns: 1, bound: b, ops: [][]c28Op{
 			{one("a1", time.Second), one("a2", time.Second)},
-			{one("b1", time.Second), {batch: []string{"b2", "b3"}, timeout: time.Second}},
+			{one("b1", time.Second), {batch: []string{"b2", "b3"}, cancel: true}},
 		}},
 	}
 	if r.Thorough() {
 		scs = append(scs, c28Scenario{name: "3callers/2conns/two-rounds", conns: 2, bound: 2, ops: [][]c28Op{
 			{one("a1", time.Second), one("a2", time.Second)},
 			{one("b1", 0), one("b2", time.Second)},
-			{{batch: []string{"c1", "c2", "c3"}, timeout: time.Second}, one("c4", 0)},
+			{{batch: []string{"c1", "c2", "c3"}, timeout: time.Second, cancel: true}, one("c4", 0)},
 		}})
 	}
 	var all []vsched.Scenario
